@@ -378,7 +378,7 @@ theorem enumVal_result_is_member (XO : XOracles) (opts : DeserOpts) (cls : Strin
     accepts, with the same stored Decimal, rejected with the same exception class otherwise -/
 theorem decimal_deser_exact (XO : XOracles) (opts : DeserOpts) (o : NumOpts) (d : PyVal) :
     bindE (deserX XO opts false (.decimal o) d) (validateX XO (.decimal o)) = validateX XO (.decimal o) d := by
-  simp only [deserX, Bool.and_false, Bool.false_eq_true, if_false, validateX, dDecimal, vDecimal]
+  simp only [deserX, Bool.and_false, Bool.false_eq_true, if_false, validateX, dDecimal, sxDecimal]
   cases hc : xConvDecimal XO d with
   | error e => simp
   | ok q => simp [xConvDecimal, PyVal.asNum]
